@@ -335,6 +335,63 @@ func buildImage(events []recEvent, p int, keep map[int]bool, dropAll bool) map[u
 	return img
 }
 
+type cp struct {
+	p       int
+	keep    map[int]bool
+	dropAll bool
+	desc    string
+}
+
+// crashPoints enumerates the crash states of a recorded trace from event p0 on: every prefix, and
+// for the writes issued since the last barrier: none of them, only the last, all but one; when
+// there are more than maxImages, an even sample.  Returns the selection and the total number.
+func crashPoints(events []recEvent, p0, fromP, toP, maxImages int, root *Rng) ([]cp, int) {
+	var cps []cp
+	for p := p0; p <= len(events); p++ {
+		if p < fromP || p > toP {
+			continue
+		}
+		last := -1
+		for j := 0; j < p; j++ {
+			if !events[j].write {
+				last = j
+			}
+		}
+		var pend []int
+		for j := last + 1; j < p; j++ {
+			if events[j].write {
+				pend = append(pend, j)
+			}
+		}
+		cps = append(cps, cp{p: p, desc: "all-pending-written"})
+		if len(pend) > 0 {
+			cps = append(cps, cp{p: p, dropAll: true, desc: "no-pending-written"})
+		}
+		if len(pend) > 1 && len(pend) <= 24 {
+			// reorderings: only the last pending write reached the disk; all but one did
+			only := map[int]bool{pend[len(pend)-1]: true}
+			cps = append(cps, cp{p: p, keep: only, desc: "only-last-pending-written"})
+			miss := pend[root.Intn(len(pend))]
+			keep := map[int]bool{}
+			for _, j := range pend {
+				if j != miss {
+					keep[j] = true
+				}
+			}
+			cps = append(cps, cp{p: p, keep: keep, desc: fmt.Sprintf("pending-write-%d-missing", miss)})
+		}
+	}
+	total := len(cps)
+	if len(cps) > maxImages {
+		var sel []cp
+		for i := 0; i < maxImages; i++ {
+			sel = append(sel, cps[i*len(cps)/maxImages])
+		}
+		cps = sel
+	}
+	return cps, total
+}
+
 func hasBarrier(events []recEvent, from, to int) bool {
 	for j := from; j < to && j < len(events); j++ {
 		if !events[j].write {
@@ -407,55 +464,7 @@ func cmdCrash(fs *flag.FlagSet, args []string) {
 		emitWalTrace(events, *disksz)
 		// crash points: every prefix from p0 on (thinned to maxImages), each with the pending
 		// writes all present, all missing, and each single one missing / alone present
-		type cp struct {
-			p       int
-			keep    map[int]bool
-			dropAll bool
-			desc    string
-		}
-		var cps []cp
-		for p := p0; p <= len(events); p++ {
-			if p < *fromP || p > *toP {
-				continue
-			}
-			last := -1
-			for j := 0; j < p; j++ {
-				if !events[j].write {
-					last = j
-				}
-			}
-			var pend []int
-			for j := last + 1; j < p; j++ {
-				if events[j].write {
-					pend = append(pend, j)
-				}
-			}
-			cps = append(cps, cp{p: p, desc: "all-pending-written"})
-			if len(pend) > 0 {
-				cps = append(cps, cp{p: p, dropAll: true, desc: "no-pending-written"})
-			}
-			if len(pend) > 1 && len(pend) <= 24 {
-				// reorderings: only the last pending write reached the disk; all but one did
-				only := map[int]bool{pend[len(pend)-1]: true}
-				cps = append(cps, cp{p: p, keep: only, desc: "only-last-pending-written"})
-				miss := pend[root.Intn(len(pend))]
-				keep := map[int]bool{}
-				for _, j := range pend {
-					if j != miss {
-						keep[j] = true
-					}
-				}
-				cps = append(cps, cp{p: p, keep: keep, desc: fmt.Sprintf("pending-write-%d-missing", miss)})
-			}
-		}
-		total := len(cps)
-		if len(cps) > *maxImages {
-			var sel []cp
-			for i := 0; i < *maxImages; i++ {
-				sel = append(sel, cps[i*len(cps)/(*maxImages)])
-			}
-			cps = sel
-		}
+		cps, total := crashPoints(events, p0, *fromP, *toP, *maxImages, root)
 		checked, distinctStates := 0, map[int]bool{}
 		for _, c := range cps {
 			img := buildImage(events, c.p, c.keep, c.dropAll)
